@@ -251,6 +251,9 @@ def foreign_history():
         for prim in (int, float, str, bool):
             mine.register_structure_hook(prim, lambda v, t: v)
         mine.register_unstructure_hook_func(lambda t: isinstance(t, type) and issubclass(t, enum.Enum), lambda v: "customised")
+        import typing
+
+        mine.register_structure_hook_func(lambda t: typing.get_origin(t) is typing.Union, lambda v, t: v)  # "my unions are already structured"
         _FOREIGN.append(mine)
     except Exception as e:  # a package that cannot do this fails the checks that create converters anyway
         sys.stderr.write("foreign converter history not established: %r\n" % (e,))
